@@ -71,3 +71,4 @@ revert 57b16f7 C08
 revert f23e696 C06
 revert b8305ae C02
 revert 8c12c05 C04
+revert 536f122 C13
